@@ -498,16 +498,8 @@ func (f *FrameV1) AppendixData() []byte {
 
 // SetAppendixData sets the appendix data.
 func (f *FrameV1) SetAppendixData(appendix []byte) error {
-	origDataSize := len(f.data)
-
-	// Expand data so we have enough space.
-	f.data = f.data[:cap(f.data)]
-
-	// Add appendix data.
-	var endIndex int
 	switch {
 	case f.appendixIndex <= 0:
-		f.data = f.data[:origDataSize]
 		return errors.New("frame is not initialized")
 
 	case len(appendix) == 0:
@@ -516,23 +508,43 @@ func (f *FrameV1) SetAppendixData(appendix []byte) error {
 		return nil
 
 	case len(appendix) > frameV1AppendixLimit:
-		f.data = f.data[:origDataSize]
 		return errors.New("appendix data too big")
+	}
 
-	case len(appendix) > len(f.data)-f.appendixIndex:
-		f.data = f.data[:origDataSize]
-		return errors.New("not enough space for appendix")
-
-	default:
-		// Write new appendix.
-		endIndex = f.appendixIndex + len(appendix)
-		copy(f.data[f.appendixIndex:endIndex], appendix)
-
-		// Set end of frame.
-		f.data = f.data[:endIndex]
-
+	// Make sure there is enough space for the appendix and for the overhead
+	// margin behind it. Move the frame to a bigger pooled slice if needed.
+	endIndex := f.appendixIndex + len(appendix)
+	var overhead int
+	if f.builder != nil {
+		_, overhead = f.builder.FrameMargins()
+	}
+	if requiredSize := f.psDataOffset + endIndex + overhead; requiredSize > len(f.pooledSlice) {
+		if f.builder == nil {
+			return errors.New("not enough space for appendix")
+		}
+		ps := f.builder.GetPooledSlice(requiredSize)
+		if ps == nil {
+			return errors.New("not enough space for appendix")
+		}
+		// Copy everything up to the appendix and the new appendix, then release the old slice.
+		copy(ps[f.psDataOffset:], f.data[:f.appendixIndex])
+		copy(ps[f.psDataOffset+f.appendixIndex:], appendix)
+		if f.pooledSlice != nil {
+			f.builder.ReturnPooledSlice(f.pooledSlice)
+		}
+		f.pooledSlice = ps
+		f.data = ps[f.psDataOffset : f.psDataOffset+endIndex]
 		return nil
 	}
+
+	// Write new appendix.
+	f.data = f.data[:cap(f.data)]
+	copy(f.data[f.appendixIndex:endIndex], appendix)
+
+	// Set end of frame.
+	f.data = f.data[:endIndex]
+
+	return nil
 }
 
 // FrameDataWithMargins returns the whole frame, including the given offset and overhead.
